@@ -159,6 +159,7 @@ type fnCtx struct {
 	implBlocks []*block
 	lastVisited string
 	prefix string
+	callOf map[string]string
 	freshRefs map[string]bool
 	frozenTag map[string]*types.Map
 	frozenNow map[string]bool
@@ -280,7 +281,10 @@ func (fc *fnCtx) asAddr(v ssa.Value) *Addr {
 			unsup("global %s of big struct type", g.Name())
 		}
 		ref := "|glob!" + trimPath(g.Pkg.Pkg.Path()) + "." + g.Name() + "|"
-		fc.declOnce(ref, "V")
+		if _, seen := fc.heapSort[ref]; !seen {
+			fc.declOnce(ref, "V")
+			fc.assumes = append(fc.assumes, fmt.Sprintf("(and (not (= %s vnil)) (select alloc %s))", ref, ref))
+		}
 		return &Addr{kind: aHeap, ref: ref, hv: "|Hcell!" + sortKey(s) + "|", hsort: s, typ: g.Type().(*types.Pointer).Elem()}
 	}
 	if fv, ok := v.(*ssa.FreeVar); ok {
